@@ -36,6 +36,7 @@ FIXED = [
  ("C26", "size the reciprocal hkl grid from the cell vector lengths", "oblique (hexagonal) cells: incomplete reflection set, ravel_hkl raised"),
  ("C26", "a 1D array of angles about a single axis", "BlochwaveEnsemble with an array of angles about one axis raised under SciPy >= 1.17"),
  ("C26", "eager BlochwaveEnsemble writes each orientation", "eager BlochwaveEnsemble with >=2 orientations wrote every member's result into all members"),
+ ("C26", "keep reflections on the cutoff sphere", "BlochWaves on a rotated crystal with a beam exactly on the g_max sphere raised KeyError in retrieve_structure_factor_values (difference vector 2g dropped from the structure-factor set by rounding; found by the thorough tier, seed 2)"),
  ("C27", "reflection conditions for A, B and C centring", "centering='A'/'B'/'C' raised AxisError"),
  ("C27", "conventional centring translations", "auto-detected centring used (1/2,0,0)-type translations for A/B/C and dropped allowed reflections of e.g. a doubled supercell"),
  ("C28", "explicit ptychography scan positions", "J explicit scan positions were meshgridded into J**2 positions"),
